@@ -167,6 +167,7 @@ func c13Pool(rng *rand.Rand, ds *gen.Dataset, n int) []c04Query {
 		if rng.Intn(12) == 0 {
 			// a structurally incomplete member (an operand without expression): invalid as a whole
 			q.Hole = true
+			q.HoleKind = rng.Intn(3)
 			q.Want = oracle.Answer{Err: true}
 		}
 		out = append(out, q)
